@@ -5,6 +5,8 @@ atomic call on one cache:
            suspended while inner calls store, evict and count);
   twin   - two instances of one decorator (two caches) over ONE on-disk archive, used alternately in one process;
   unser  - an eviction victim that the archive cannot serialise: the failing write-back must not damage what is archived.
+  reuse  - ONE decorator object applied to two functions (`memo = lru_cache(maxsize=3); f = memo(f0); g = memo(g0)`): each
+           function's results are its own, each has its own account in info(), clear() of one leaves the other's counters.
 
 The monitors are the properties' own words (results equal the function's, size <= maxsize after every top-level call, every key
 evaluated once while a lossless archive is attached, hit+miss+load = number of calls, nothing evaluated is lost). There is no Lean
@@ -16,7 +18,7 @@ from common import *
 
 NCASES = {'quick': 360, 'thorough': 3600}
 RULE = ('monitor-only scenarios outside the atomic-call model: (recur) recursive memoized functions on all 12 decorators x purge x archive, '
-        '(twin) two decorator instances alternating on one file/dir/sqlite archive, (unser) an unserialisable eviction victim; '
+        '(twin) two decorator instances alternating on one file/dir/sqlite archive, (unser) an unserialisable eviction victim, (reuse) one decorator object applied to two functions; '
         'non-trivial = every scenario (each has nested calls, shared storage or a failing write-back)')
 ALGOS = ['lru', 'lfu', 'mru', 'rr', 'inf', 'no']
 
@@ -39,10 +41,17 @@ def make_archive(kind, tmp, name):
 def gen(tier, idx):
     r = rng('multi', tier, idx)
     scen = ['recur', 'recur', 'twin', 'unser'][idx % 4]
+    if idx % 8 == 1: scen = 'reuse'
     algo = ALGOS[(idx // 4) % 6]; safe = (idx // 24) % 2 == 1
     cfg = dict(scen=scen, algo=algo, safe=safe, seed=r.randrange(10 ** 6), maxsize=r.choice([1, 2, 3, 3, 5]), purge=r.random() < 0.35)
+    if scen == 'reuse': cfg.update(algo=ALGOS[(idx // 8) % 6], safe=(idx // 48) % 2 == 1)
     if scen == 'recur':
         cfg.update(arch=r.choice(['none', 'dict', 'dict', 'file']), tops=[r.randrange(6, 15) for _ in range(r.choice([2, 3, 4]))])
+    elif scen == 'reuse':
+        # the two functions are called on disjoint arguments first (their accounts must be separate whatever else is shared),
+        # then on common ones (their results must be their own)
+        cfg.update(arch='none', purge=False, calls=[[r.randrange(2), r.randrange(6)] for _ in range(r.choice([10, 20]))],
+                   common=[[r.randrange(2), r.randrange(4)] for _ in range(8)], keepstats=r.random() < .5)
     elif scen == 'twin':
         if algo in ('inf', 'no'): cfg['algo'] = r.choice(['lru', 'lfu', 'mru', 'rr'])
         cfg.update(arch=r.choice(['file', 'dir', 'sql']), purge=False, calls=[[r.randrange(2), r.randrange(12)] for _ in range(r.choice([20, 40]))])
@@ -101,6 +110,35 @@ def run_case(cfg):
             if a is not None and cfg['algo'] != 'no' or (a is not None and cfg['algo'] == 'no'):
                 dup = [m for m, c in collections.Counter(evals).items() if c > 1]
                 if dup: bad('C02', 'recursive-re-evaluation', 'with a lossless archive attached the arguments %r were evaluated more than once' % sorted(dup)[:6])
+        elif cfg['scen'] == 'reuse':
+            memo = D(**dkw(cfg))
+            fns = [memo(lambda x: ('f', x)), memo(lambda x: ('g', x))]
+            done = [0, 0]
+            def stats(w): return tuple(fns[w].info())[:3]
+            for phase, calls in (('disjoint', [[w, x + 100 * w] for w, x in cfg['calls']]), ('common', cfg['common'])):
+                for w, x in calls:
+                    other = stats(1 - w)
+                    try:
+                        got = fns[w](x)
+                        if done[w] is not None: done[w] += 1
+                        if got != ('fg'[w], x):
+                            bad('C01', 'reused-decorator-wrong-result', '%s(%d) returned %r: the result of the OTHER function decorated with the same decorator object' % ('fg'[w], x, got), phase=phase)
+                    except Exception as e:
+                        done[w] = None        # (the wrapper's own bookkeeping raised half-way: its account is no longer checked)
+                        bad('C01', 'reused-decorator-call-raises', '%s(%d) raised %s: %s' % ('fg'[w], x, type(e).__name__, str(e)[:60]), phase=phase, exc=type(e).__name__)
+                    if bounded and len(fns[w].__cache__()) > cfg['maxsize']:
+                        bad('C05', 'reused-decorator-size-exceeds-maxsize', 'after %s(%d) its cache holds %d entries' % ('fg'[w], x, len(fns[w].__cache__())), phase=phase)
+                    if done[w] is not None and sum(stats(w)) != done[w]:
+                        bad('C15', 'reused-decorator-counters-do-not-add-up', '%s completed %d calls, its info() says hit+miss+load = %r' % ('fg'[w], done[w], stats(w)), phase=phase)
+                    if stats(1 - w) != other:
+                        bad('C15', 'reused-decorator-call-counted-on-the-other-function', 'a call of %s moved the counters of %s from %r to %r' % ('fg'[w], 'fg'[1 - w], other, stats(1 - w)), phase=phase)
+                    if len(viol) > 6: break
+                if phase == 'disjoint':
+                    keep = stats(0)
+                    fns[1].clear(keepstats=cfg['keepstats'])
+                    if stats(0) != keep:
+                        bad('C15', 'reused-decorator-clear-resets-the-other-function', 'g.clear(keepstats=%r) moved the counters of f from %r to %r' % (cfg['keepstats'], keep, stats(0)))
+                    if not cfg['keepstats'] and done[1] is not None: done[1] = 0
         elif cfg['scen'] == 'twin':
             evals = []
             def g(x): evals.append(x); return 'v%d' % x
@@ -186,7 +224,7 @@ def explore(prop, tier, offset=0):
         tags[o['cfg']['scen']] += 1; tags['algo=' + o['cfg']['algo']] += 1
         for v in o['viol']:
             if v['prop'] == prop: viols.append(dict(v, i=0, cfg=o['cfg'], ops=[]))
-    n = sum(tags[s] for s in ('recur', 'twin', 'unser'))
+    n = sum(tags[s] for s in ('recur', 'twin', 'unser', 'reuse'))
     # the recursive traces against the model (flat history of completions)
     import run_wrapper as rw
     trs = [o['trace'] for o in res if o.get('trace') is not None]
@@ -199,7 +237,7 @@ def explore(prop, tier, offset=0):
     tags['recursive-trace'] = len(rt); tags['recursive-completions'] = sum(len(t['recs']) for t in rt); tags['evictions-in-model-traces'] = wtags.get('evict', 0)
     tags['twin-trace'] = len(tt); tags['twin-external-writes'] = sum(1 for t in tt for x in t['recs'] if x['op'][0] == 'extput')
     return dict(suite='multi', traces=n + len(trs), evaluations=n + sum(len(t['recs']) for t in trs), distinct_nontrivial=n, tags=dict(tags), divergences=divs, violations=viols, samples=[res[0]['cfg'], res[2]['cfg']],
-                errors=errors[:3], rule=RULE, required_tags=['recur', 'twin', 'unser', 'recursive-trace', 'twin-trace'], config_histogram=None)
+                errors=errors[:3], rule=RULE, required_tags=['recur', 'twin', 'unser', 'reuse', 'recursive-trace', 'twin-trace'], config_histogram=None)
 
 
 def replay(prop, obj):
